@@ -76,12 +76,15 @@ def adjustGuard (a : Adjustment) : Option String :=
   else if a.args == [[]] then some "bare args marker"
   else none
 
-def caseGuard (k : Kind) (c0 : Container) (rs : List (Plugin × Response)) : Option String :=
+/-- `hugeGuard`: a plugin sets a hugepage limit of a size the original container already has.
+    This is a hypothesis of C04's last sentence only (`guard_view_hugepage_in_original`); the
+    predicates the driver evaluates do not need it, so it is off. -/
+def caseGuard (k : Kind) (c0 : Container) (rs : List (Plugin × Response)) (hugeGuard : Bool := false) : Option String :=
   match rs.findSome? (fun (_, r) => r.adjust.bind adjustGuard) with
   | some g => some g
   | none =>
     if Ledger.dupWithin k rs then some "one response names an item twice"
-    else if rs.any (fun (_, r) => match r.adjust with
+    else if hugeGuard && rs.any (fun (_, r) => match r.adjust with
         | some a => (a.resources.map (·.hugepages)).getD [] |>.any fun h => c0.resources.hugepages.any fun h0 => h0.pageSize = h.pageSize
         | none => false) then some "hugepage size already in the original"
     else none
@@ -127,7 +130,54 @@ def itemKindTag : Item → String
   | .cpusetCpus => "cpusetCpus" | .cpusetMems => "cpusetMems" | .pids => "pids"
   | .blockio => "blockio" | .rdt => "rdt" | .cgroupsPath => "cgroupsPath" | .oomScoreAdj => "oomScoreAdj"
 
-def judgeCommon (j : Json) : Except String Judged := do
+def isInfix (pat s : Str) : Bool :=
+  (List.range (s.length + 1 - pat.length)).any fun i => (s.drop i).take pat.length == pat
+
+/-- the key of a keyed item (what an error message must mention to be about it) -/
+def itemKey : Item → Option Str
+  | .annotation k => some k | .mount d => some d | .device p => some p | .cdi n => some n
+  | .env n => some n | .hugepage s => some s | .unified k => some k | .rlimit t => some t
+  | _ => none
+
+/-- the subject is one the collector's current wording produces (Ledger.subjectOf) -/
+def knownSubject (s : Str) : Bool :=
+  [Item.args, .memLimit, .memReservation, .memSwap, .memKernel, .memKernelTcp, .memSwappiness,
+   .memDisableOom, .memUseHierarchy, .cpuShares, .cpuQuota, .cpuPeriod, .cpuRtRuntime, .cpuRtPeriod,
+   .cpusetCpus, .cpusetMems, .pids, .blockio, .rdt, .cgroupsPath, .oomScoreAdj].any (fun it => Ledger.subjectOf it == s)
+  || [Item.annotation [], .mount [], .device [], .cdi [], .env [], .hugepage [], .unified [], .rlimit []].any
+       (fun it => (Ledger.subjectOf it).isPrefixOf s)
+
+/-! ### iteration order of Go maps that is observable
+
+`updateResources` claims the unified keys of an update in Go map iteration order, and the claims
+an ignore-failure update made before its failing field stay in the ledger. Which unified keys
+such a dropped update keeps is therefore decided by an order the harness cannot see. The model
+takes the order from the list; the theorems hold for every list, hence for every order; the
+comparison accepts the case if SOME order of the unified keys of the ignore-failure updates
+reproduces the observation, and the property predicates are evaluated on that order. -/
+
+def permsOf {α : Type} : List α → List (List α)
+  | [] => [[]]
+  | x :: xs => (permsOf xs).flatMap fun p => (List.range (p.length + 1)).map fun i => p.take i ++ x :: p.drop i
+
+def listVariants {α : Type} (f : α → List α) : List α → List (List α)
+  | [] => [[]]
+  | x :: xs => (f x).flatMap fun x' => (listVariants f xs).map (x' :: ·)
+
+def updVariants (u : Update) : List Update :=
+  match u.resources with
+  | some r =>
+    if u.ignoreFailure && r.unified.length ≥ 2 && r.unified.length ≤ 4 then
+      (permsOf r.unified).map fun un => { u with resources := some { r with unified := un } }
+    else [u]
+  | none => [u]
+
+/-- the chain itself first, then its variants (at most 48) -/
+def chainVariants (chain : List (Plugin × Response)) : List (List (Plugin × Response)) :=
+  (listVariants (fun (x : Plugin × Response) =>
+      (listVariants updVariants x.2.updates).map fun us => (x.1, { x.2 with updates := us })) chain).take 48
+
+def judgeChain (j : Json) (variant : Nat) : Except String (Judged × Nat) := do
   let inJ ← getObj j "in"
   let inp ← decCaseIn inJ
   let obs ← decCaseObs inp.kind (← getObj j "obs")
@@ -142,9 +192,11 @@ def judgeCommon (j : Json) : Except String Judged := do
   -- builder stream: the responses are what the plugins' programs built with the real helpers
   -- (compared with the model's `runA`/`runU` in `Drv.Builder.prepare`); otherwise as given
   let binfo ← Drv.Builder.prepare inp.kind inJ (← getObj j "obs") inp.plugins
-  let chain : List (Plugin × Response) := match binfo with
+  let chain0 : List (Plugin × Response) := match binfo with
     | some b => b.plugs.map fun p => (p.name, p.sent)
     | none => inp.plugins.map fun p => (p.name, p.rsp)
+  let variants := chainVariants chain0
+  let chain : List (Plugin × Response) := variants.getD variant chain0
   let chainO : List (Plugin × Option Response) := chain.map fun (n, r) => (n, some r)
   let res := run Quirks.fixed st0 chainO
   let along := viewsAlong Quirks.fixed st0 chainO
@@ -152,6 +204,22 @@ def judgeCommon (j : Json) : Except String Judged := do
   let eAgree := errKind res == obs.err.kind
   let mut diffs : List String := match binfo with | some b => b.diffs | none => []
   if !eAgree then diffs := diffs ++ [s!"error: model {showErr res}, implementation {obs.err.kind} {U obs.err.subject} {U obs.err.p}/{U obs.err.q}"]
+  -- who is blamed for what: the collector's claim order is deterministic except inside Go maps
+  -- (annotations, unified keys), so the model's (claimant, owner, item) is the expected one
+  if eAgree && obs.err.kind == "conflict" && !obs.err.loose && inp.stream != "twins" then
+    match res with
+    | .error (.conflict _ it p q) =>
+      let mapFamily := match it with | .annotation _ => true | .unified _ => true | _ => false
+      let sameFamily := match it with
+        | .annotation _ => (Ledger.subjectOf (.annotation [])).isPrefixOf obs.err.subject
+        | .unified _ => (Ledger.subjectOf (.unified [])).isPrefixOf obs.err.subject
+        | _ => false
+      let subjOk := Ledger.subjectOf it == obs.err.subject || (mapFamily && sameFamily)
+      -- a reworded subject (not in the collector's current vocabulary) is not compared
+      let known := knownSubject obs.err.subject
+      if (known && !subjOk) || (!mapFamily && (p != obs.err.p || q != obs.err.q)) then
+        diffs := diffs ++ [s!"blame: model {showErr res}, implementation conflict {U obs.err.subject} {U obs.err.p}/{U obs.err.q}"]
+    | _ => pure ()
   -- who was invoked
   let mInvoked := (chain.take along.length).map (·.1)
   if let some d := firstDiff "invoked" U mInvoked obs.invoked then diffs := diffs ++ [d]
@@ -184,8 +252,18 @@ def judgeCommon (j : Json) : Except String Judged := do
     ++ (if chain.any (fun (_, r) => (Ledger.containersOf kind chain).any fun c => !(Ledger.removesOn kind r c).isEmpty) then ["removal"] else [])
     ++ (match guard with | some g => [s!"guard:{g}"] | none => [])
     ++ (match binfo with | some b => b.cover | none => [])
-  pure { agree := diffs.isEmpty, whyAgree := "; ".intercalate diffs, kind, chain, inp, obs, guard,
-         modelOk := errKind res == "none", cover, binfo }
+  let cover := if variants.length > 1 then s!"unified-orders:{variants.length}" :: cover else cover
+  pure ({ agree := diffs.isEmpty, whyAgree := "; ".intercalate diffs, kind, chain, inp, obs, guard,
+          modelOk := errKind res == "none", cover, binfo }, variants.length)
+
+def judgeCommon (j : Json) : Except String Judged := do
+  let (d0, n) ← judgeChain j 0
+  if d0.agree || n ≤ 1 then return d0
+  for v in List.range n do
+    if v > 0 then
+      let (d, _) ← judgeChain j v
+      if d.agree then return { d with cover := "unified-order:found" :: d.cover }
+  return d0
 
 /-! ### property predicates, each evaluated on the implementation's observation -/
 
@@ -194,23 +272,6 @@ def specC01 (d : Judged) : Bool × String × String :=
   if Ledger.mustFail d.kind d.chain && d.obs.err.kind == "none" then
     (false, "two plugins set the same item (no removal in between) yet the request succeeded", "C01:collision-not-flagged")
   else (true, "", "")
-
-def isInfix (pat s : Str) : Bool :=
-  (List.range (s.length + 1 - pat.length)).any fun i => (s.drop i).take pat.length == pat
-
-/-- the key of a keyed item (what an error message must mention to be about it) -/
-def itemKey : Item → Option Str
-  | .annotation k => some k | .mount d => some d | .device p => some p | .cdi n => some n
-  | .env n => some n | .hugepage s => some s | .unified k => some k | .rlimit t => some t
-  | _ => none
-
-/-- the subject is one the collector's current wording produces (Ledger.subjectOf) -/
-def knownSubject (s : Str) : Bool :=
-  [Item.args, .memLimit, .memReservation, .memSwap, .memKernel, .memKernelTcp, .memSwappiness,
-   .memDisableOom, .memUseHierarchy, .cpuShares, .cpuQuota, .cpuPeriod, .cpuRtRuntime, .cpuRtPeriod,
-   .cpusetCpus, .cpusetMems, .pids, .blockio, .rdt, .cgroupsPath, .oomScoreAdj].any (fun it => Ledger.subjectOf it == s)
-  || [Item.annotation [], .mount [], .device [], .cdi [], .env [], .hugepage [], .unified [], .rlimit []].any
-       (fun it => (Ledger.subjectOf it).isPrefixOf s)
 
 /-- blame with an error text of unknown wording: both named plugins (in either order) set one
     item of one container, and if that item has a key the text mentions it -/
@@ -331,10 +392,16 @@ def specC03 (d : Judged) : Bool × String × String :=
     | none =>
       if a.devRules.any (fun r => !b.devRules.contains r) then
         (false, s!"device cgroup rules: combined {a.devRules} has a rule sequential {b.devRules} lacks", "C03:devRules-extra")
+      else if !b.staleUnexplained.isEmpty then
+        (false, s!"device cgroup rules: sequential has {b.staleUnexplained} which the combined spec lacks although no later plugin removed or replaced that device", "C03:devRules-missing")
       else if a.devRules.length != b.devRules.length then
         (false, s!"device cgroup rules: combined {a.devRules} /// sequential {b.devRules}", "C03:devRules-stale")
       else (true, "", "")
-  | _, _ => (true, "", "")
+  | _, _ =>
+    -- a successful creation request without the two specs was not compared at all
+    if d.inp.kind == "create" && d.obs.err.kind == "none" && d.inp.stream != "twins" then
+      (false, "the combined and the sequential spec are missing from the observation", "C03:not-compared")
+    else (true, "", "")
 
 def finish (prop : String) (d : Judged) (s : Bool × String × String) : Verdict :=
   let (ok, why, sig) := s
